@@ -264,7 +264,7 @@ Proof.
     + split; [|exact HF]. eapply RelQ_plain_result; [| |exact HR]; reflexivity.
   - intros c b. apply quiet_wdata.
   - intros c what cid' b Hw. apply quiet_g. unfold quiet_ghost. cbn [In].
-    destruct Hw as [->| ->]; tauto.
+    destruct Hw as [->|[->| ->]]; tauto.
   - intros [m cs] Hh HR.
     destruct (FdR_sys L P cs (st w) "wr" fd [] ) as [cs' [H1 H2]].
     + unfold sysname; cbn; tauto.
